@@ -981,6 +981,9 @@ def c14():
             p["ops"].insert(0, {"op": "clock", "t": [2020, 6, 15, 12, 30, 30, 0]})
             if "fault" in p:
                 p["fault"] = dict(p["fault"], at=p["fault"]["at"] + 1)
+    for i in range(half(12, 120)):
+        kname = ["K1b", "K2", "K5"][i % 3]
+        progs.append(gen.patch_header_crash_program(rng, "patch-header-%s-%d" % (kname, i), gen.K(kname), CS[kname]))
     # every device call of a multi-cluster write interrupted once (quick: two configurations)
     for kname in (["K1b", "K5"] if core.tier() == "quick" else ["K1b", "K2", "K3", "K5"]):
         progs += gen.intr_write_programs("intr-write-%s" % kname, gen.K(kname), CS[kname])
